@@ -158,6 +158,17 @@ CHECKS = {
         note="Quick grid: 0..39 + boundaries + 40 random operands per opcode (thorough: 0..299 + 400 random). Versions <= 3.5 have no reference here.",
         technique="TLA+ rule-class model of stack effects, validated against CPython by TLC each run, then TLC trace validation of xdis over an operand grid",
     ),
+    "C19": dict(
+        category="model_checking",
+        text="LineMapGen.tla enumerates {offset: line} mappings over gap classes (offset gaps needing 0-2 continuation entries; line gaps 1, 127..129, "
+             "255..257, 400+, and negative). Each is assigned as dict and as list to Code15/Code2/Code3(3.3, 3.6)/Code38/Code310 and frozen; the "
+             "reference reader machine of the type's era (LineTables.tla, validated against CPython 2.7/3.6/3.8/3.10 on the same bytes) decodes the "
+             "produced table and must return the mapping; xdis's own findlinestarts on the frozen object is judged against the same bytes.",
+        design_ref="DESIGN.md section 5 C19, spec S4",
+        note="Mappings start with (0, co_firstlineno); decreasing lines only for signed formats. Two recorded findings: unsigned encoder used for "
+             "signed-era types; Code310 encoder.",
+        technique="TLC-enumerated mappings frozen by xdis; TLC trace validation of the frozen bytes with the reference line-table reader; CPython as second decoder",
+    ),
 }
 
 NOT_YET = "check not built yet in this round (planned: see DESIGN.md section 5); not claimed until its machinery exists"
